@@ -1095,19 +1095,130 @@ fn check_c03(cases: &[Case], results: &[Option<RunResult>]) -> Vec<Violation> {
     }
     v
 }
+/// Provenance check on the labelled model output (which the implementation's text equals when
+/// the correspondence holds): the document labels (>= 16) carried by non-whitespace output
+/// characters are exactly the labels of the visible characters of the DOM - in order for
+/// table-free documents and raw mode, as a multiset otherwise - and every other non-whitespace
+/// character is one the renderer made (label < 16).
+fn check_model_c03(i: usize, c: &Case, r: &RunResult, mo: &Outcome, labels: &Vec<Vec<Vec<u64>>>) -> Option<Violation> {
+    let lines = match mo {
+        Outcome::Lines(l) => l,
+        _ => return None,
+    };
+    if labels.len() != lines.len() {
+        return None;
+    }
+    // expected labels: replicate Wire.label_doc over the DOM wire
+    let w = &r.dom_wire;
+    let mut pos = 0usize;
+    let mut k: u64 = 16;
+    let mut expected: Vec<u64> = Vec::new();
+    fn rd(w: &[u64], pos: &mut usize) -> u64 {
+        let x = w.get(*pos).copied().unwrap_or(0);
+        *pos += 1;
+        x
+    }
+    fn text(w: &[u64], pos: &mut usize) -> Vec<u64> {
+        let n = rd(w, pos) as usize;
+        (0..n).map(|_| rd(w, pos)).collect()
+    }
+    fn vis(code: u64) -> bool {
+        let wsb = code % 2 == 1;
+        let wc = (code / 2) % 8;
+        !wsb && wc != 0
+    }
+    fn nodes(w: &[u64], pos: &mut usize, k: &mut u64, skip: bool, expected: &mut Vec<u64>) {
+        let n = rd(w, pos) as usize;
+        for _ in 0..n {
+            match rd(w, pos) {
+                0 => {
+                    let html = rd(w, pos) != 0;
+                    let name: String = text(w, pos).iter().map(|x| char::from_u32((*x / 16) as u32).unwrap_or('?')).collect();
+                    let na = rd(w, pos) as usize;
+                    let mut alt: Vec<(u64, u64)> = Vec::new();
+                    let mut has_src = false;
+                    for _ in 0..na {
+                        let an: String = text(w, pos).iter().map(|x| char::from_u32((*x / 16) as u32).unwrap_or('?')).collect();
+                        let av = text(w, pos);
+                        if an == "alt" && !av.is_empty() {
+                            alt = av.iter().enumerate().map(|(j, x)| (*x, *k + j as u64)).collect();
+                        }
+                        if an == "src" && !av.is_empty() {
+                            has_src = true;
+                        }
+                        *k += av.len() as u64;
+                    }
+                    let sk = skip || (html && ["head", "script", "style", "link", "meta", "hr", "template"].contains(&name.as_str()));
+                    if html && name == "img" && !sk && has_src {
+                        for (code, lab) in &alt {
+                            if vis(*code) {
+                                expected.push(*lab);
+                            }
+                        }
+                    }
+                    let sk2 = sk || (html && (name == "img" || name == "br"));
+                    nodes(w, pos, k, sk2, expected);
+                }
+                1 => {
+                    let t = text(w, pos);
+                    for code in &t {
+                        if !skip && vis(*code) {
+                            expected.push(*k);
+                        }
+                        *k += 1;
+                    }
+                }
+                _ => {}
+            }
+        }
+    }
+    nodes(w, &mut pos, &mut k, false, &mut expected);
+    let mut got: Vec<u64> = Vec::new();
+    for (l, ll) in lines.iter().zip(labels.iter()) {
+        let mut si = 0usize;
+        for e in l {
+            if let Elem::Str(s, _) = e {
+                if let Some(labs) = ll.get(si) {
+                    for (ch, lab) in s.chars().zip(labs.iter()) {
+                        if *lab >= 16 && !ch.is_whitespace() {
+                            got.push(*lab);
+                        }
+                    }
+                }
+            }
+            si += 1;
+        }
+    }
+    let dom = dom_of(r);
+    let ordered = !has_element(&dom, &["table"]) || c.spec.cfg.raw == 1;
+    let ok = if ordered {
+        got == expected
+    } else {
+        let mut a = got.clone();
+        let mut b = expected.clone();
+        a.sort();
+        b.sort();
+        a == b
+    };
+    if ok {
+        None
+    } else {
+        Some(viol(i, "provenance of the model's output: a document character lost, duplicated or reordered", format!("expected {} labelled characters, output has {}", expected.len(), got.len()), c03_known(&dom)))
+    }
+}
 fn nontrivial_c03(_c: &Case, r: &RunResult) -> bool {
     out_lines(&r.outcome).map(|l| l.len() >= 2).unwrap_or(false)
 }
 
 pub fn prop_def3(id: &str) -> Option<PropDef> {
     match id {
-        "C03" => Some(PropDef { id: "C03", generate: gen_c03, check: check_c03, nontrivial: nontrivial_c03, project: ident, deadline_ms: 20000 }),
-        "C08" => Some(PropDef { id: "C08", generate: gen_c08, check: check_c08, nontrivial: nontrivial_c08, project: ident, deadline_ms: 20000 }),
-        "C09" => Some(PropDef { id: "C09", generate: gen_c09, check: check_c09, nontrivial: nontrivial_c09, project: ident, deadline_ms: 20000 }),
-        "C12" => Some(PropDef { id: "C12", generate: gen_c12, check: check_c12, nontrivial: nontrivial_c12, project: ident, deadline_ms: 20000 }),
-        "C13" => Some(PropDef { id: "C13", generate: gen_c13, check: check_c13, nontrivial: nontrivial_c13, project: ident, deadline_ms: 20000 }),
-        "C14" => Some(PropDef { id: "C14", generate: gen_c14, check: check_c14, nontrivial: nontrivial_c14, project: ident, deadline_ms: 20000 }),
-        "C15" => Some(PropDef { id: "C15", generate: gen_c15, check: check_c15, nontrivial: nontrivial_c15, project: ident, deadline_ms: 20000 }),
+        "C03" => Some(PropDef { id: "C03", generate: gen_c03, check: check_c03, nontrivial: nontrivial_c03, project: ident, deadline_ms: 20000, check_model: Some(check_model_c03) }),
+        "C08" => Some(PropDef { id: "C08", generate: gen_c08, check: check_c08, nontrivial: nontrivial_c08, project: ident, deadline_ms: 20000, check_model: None }),
+        "C09" => Some(PropDef { id: "C09", generate: gen_c09, check: check_c09, nontrivial: nontrivial_c09, project: ident, deadline_ms: 20000, check_model: None }),
+        "C12" => Some(PropDef { id: "C12", generate: gen_c12, check: check_c12, nontrivial: nontrivial_c12, project: ident, deadline_ms: 20000, check_model: None }),
+        "C13" => Some(PropDef { id: "C13", generate: gen_c13, check: check_c13, nontrivial: nontrivial_c13, project: ident, deadline_ms: 20000, check_model: None }),
+        "C14" => Some(PropDef { id: "C14", generate: gen_c14, check: check_c14, nontrivial: nontrivial_c14, project: ident, deadline_ms: 20000, check_model: None }),
+        "C15" => Some(PropDef { id: "C15", generate: gen_c15, check: check_c15, nontrivial: nontrivial_c15, project: ident, deadline_ms: 20000, check_model: None }),
         other => crate::props4::prop_def4(other),
     }
 }
